@@ -57,6 +57,9 @@ Fixpoint p_attrs (fuel : nat) (s : str) : option (list (str * str) * str) :=
     | c :: s1 =>
       if ceq c SP then
         let (name, s2) := span namech s1 in
+        match name with
+        | [] => p_attrs f s1      (* white space before the closing > or /> *)
+        | _ :: _ =>
         match s2 with
         | e :: q :: s3 =>
           if name_ok name && ceq e EQ && ceq q QUOT then
@@ -70,6 +73,7 @@ Fixpoint p_attrs (fuel : nat) (s : str) : option (list (str * str) * str) :=
             end
           else None
         | _ => None
+        end
         end
       else Some ([], s)
     | [] => Some ([], s)
